@@ -71,6 +71,7 @@ def cells(tier):
     out += make_cells(PID, 'frame', tier, N=3, thin=plain, extra={'presend': True}, suffix='after-roStorySend-of-every-story')
     # mixed content: character data of the parent after stories, items and paragraphs
     out += make_cells(PID, 'frame', tier, N=3, thin=plain, extra={'tails': True}, suffix='mixed-content')
+    out += make_cells(PID, 'frame', tier, N=3, thin=plain, extra={'tails': True, 'tail': False, 'trail': 0}, suffix='mixed-content-named-element-last')
     # the smallest shapes: one story / item, and every story / item of the container named by the message
     def small(n):
         def f(op, story_k, tk, sk, nk):
